@@ -64,6 +64,167 @@ def check_glin(model, R, ops, P):
     return stores
 
 
+# ------------------------------------------------------------------------------------------------ HOMOG (bilinear kernels)
+# forward kernels that are linear in each of two operands (u, v): the gradient handed to u is linear in v and does not depend on u (and vice versa).
+# (backward kernel, {slot: (parameter the slot must be LINEAR in, parameters it must be CONSTANT in)}, parameters present, parameters absent)
+BILINEAR = [
+    ('mul_backward', {0: ('b', ()), 1: ('a', ())}, (), ()),
+    ('matmul_backward', {0: ('b', ()), 1: ('a', ())}, (), ()),
+    ('addmm_backward', {1: ('c', ()), 2: ('b', ())}, (), ()),
+    ('conv1d_backward', {0: ('weight', ()), 1: ('windows', ())}, ('bias',), ()),
+    ('conv2d_backward', {0: ('weight', ()), 1: ('windows', ())}, ('bias',), ()),
+    ('batch_norm_backward', {0: ('gamma', ())}, ('gamma', 'beta'), ()),
+]
+
+
+def check_homog(model, R, P, names=None):
+    """degree-one homogeneity: with the upstream gradient held constant, the slot of operand u is LINEAR in the partner operand v
+    (abstract interpretation over {ZERO, CONST, LIN, NONLIN}: a term of the formula that lost the factor v - or gained a second one - is CONST / NONLIN)"""
+    R.rule(P + '.HOMOG', 'for kernels linear in each of two operands (products, matmul, convolution with its weight, the affine scale of batch norm) the gradient of one operand is '
+                         'homogeneous of degree one in the partner operand: every additive term of the formula carries that factor exactly once', floor=1)
+    for kname, slots, present, absent in BILINEAR:
+        if names is not None and kname not in names:
+            continue
+        kf = model.funcs.get('synapgrad.cpu_ops.' + kname)
+        if kf is None:
+            R.incomplete_at(P + '.HOMOG', 'synapgrad.cpu_ops.' + kname, 'kernel not found')
+            continue
+        for k, (lin_in, _) in sorted(slots.items()):
+            try:
+                dom = L.Linear({lin_in})
+                dom.present, dom.absent = set(present) | {lin_in}, set(absent)
+                I = Interp(model, kf, dom)
+                env = {p: (L.LIN if p == lin_in else L.CONST) for p in kf.pos_params}
+                for p, dnode in kf.defaults().items():
+                    if p not in env:
+                        env[p] = I.expr(dnode, {})
+                ret = I.run(env)
+            except Incomplete as e:
+                R.incomplete_at(P + '.HOMOG', kf.qualname, str(e))
+                continue
+            items = ret.items if isinstance(ret, Tup) else [ret]
+            c = I.domain.c(items[k]) if k < len(items) else None
+            nonlin = [e for e in I.events if e['kind'] == 'nonlin']
+            why = 'slot %d of %s is %s in `%s` (the upstream gradient and the other operands held constant): a term without the factor %s is CONST, a squared / tested one NONLIN' \
+                % (k, kname, c, lin_in, lin_in)
+            if nonlin and c != L.LIN:
+                why += '; first offending construct: %s at %s' % (norm(nonlin[0]['node'])[:80], nonlin[0]['loc'])
+            R.ob(P + '.HOMOG', kf.qualname, 'slot %d is linear in %s' % (k, lin_in), c == L.LIN, why, kf.loc)
+
+
+# ------------------------------------------------------------------------------------------------ NumPy contracts the kernels rely on
+def check_numpy_contracts(model, R, P):
+    """expected-count-zero rules over every NumPy call of the kernel / wrapper modules"""
+    R.rule(P + '.LAYOUT', 'no NumPy call of the kernels asks for a memory order other than C (order=\'A\' / \'F\' / \'K\' make reshape / ravel / flatten / copy read the operand in '
+                         'its physical order: the result then depends on how the operand was produced, e.g. a transposed view)', floor=1)
+    R.rule(P + '.DOT', 'np.dot / ndarray.dot / np.inner are used only on operands known to have at most 2 dims (for an N-D right operand np.dot contracts with its second-to-last axis '
+                       'and orders the result axes differently from the batched matrix product @)', floor=1)
+    n_calls = n_order = n_dot = 0
+    for modname in ('synapgrad.cpu_ops', 'synapgrad.conv_tools', 'synapgrad.functional', 'synapgrad.nn.functional'):
+        for f in model.live_funcs():
+            if f.mod.modname != modname:
+                continue
+            cfg = None
+            for c in body_walk(f.node):
+                if not isinstance(c, ast.Call):
+                    continue
+                n_calls += 1
+                for k in c.keywords:
+                    if k.arg == 'order':
+                        n_order += 1
+                        ok = isinstance(k.value, ast.Constant) and k.value.value == 'C'
+                        R.ob(P + '.LAYOUT', f.qualname, norm(c)[:90], ok, 'order=%s: the elements are taken in the physical order of the operand\'s buffer, so a Fortran-ordered / transposed operand '
+                             'gives a different result than the same values in C order' % norm(k.value), '%s:%d' % (f.mod.relpath, c.lineno))
+                d = model.resolve(f.mod, c.func) or ''
+                is_dot = d in ('numpy.dot', 'numpy.inner', 'numpy.vdot') or (isinstance(c.func, ast.Attribute) and c.func.attr == 'dot' and not d.startswith('numpy.'))
+                if is_dot:
+                    n_dot += 1
+                    if cfg is None:
+                        cfg = CFG(f.node)
+                    ops = list(c.args[:2]) if d.startswith('numpy.') else [c.func.value] + list(c.args[:1])
+                    from .rules_engine import _stmt_in
+                    try:
+                        st = _stmt_in(f.node, c)
+                        facts = {(t, p) for t, p, _ in facts_at(cfg, st)}
+                    except Exception:
+                        facts = set()
+
+                    def small(e):
+                        t = norm(e)
+                        pos = [('%s.ndim == 2' % t, True), ('%s.ndim <= 2' % t, True), ('%s.ndim == 1' % t, True), ('%s.ndim < 3' % t, True), ('len(%s.shape) == 2' % t, True),
+                               ('len(%s.shape) <= 2' % t, True), ('%s.ndim > 2' % t, False), ('%s.ndim >= 3' % t, False)]
+                        return any(x in facts for x in pos)
+                    ok = len(ops) == 2 and all(small(o) for o in ops)
+                    R.ob(P + '.DOT', f.qualname, norm(c)[:90], ok, 'np.dot on an operand that may have more than 2 dims is not the (batched) matrix product: use @ / np.matmul, or guard both '
+                         'operands with ndim <= 2', '%s:%d' % (f.mod.relpath, c.lineno))
+    R.ob(P + '.LAYOUT', 'synapgrad', 'order= keywords in %d NumPy / helper calls scanned: %d' % (n_calls, n_order), n_calls > 200, 'scan did not see the kernel modules', '')
+    R.ob(P + '.DOT', 'synapgrad', 'np.dot-family calls in %d calls scanned: %d' % (n_calls, n_dot), n_calls > 200, 'scan did not see the kernel modules', '')
+
+
+def check_index_width(model, R, P, modname='synapgrad.conv_tools'):
+    """index arrays keep the platform integer width: no cast of an integer array to a narrower / data-dependent integer type in the window-index code"""
+    R.rule(P + '.INDEX-WIDTH', 'index arithmetic of the window helpers is done in the default integer type: no .astype / dtype= to a narrower or computed integer type '
+                               '(an index that wraps around addresses the wrong pixel without any error)', floor=1)
+    WIDE = {'int', 'np.int64', 'numpy.int64', 'np.intp', 'numpy.intp', "'int64'", "'intp'", 'np.int_', 'numpy.int_'}
+    FLOATY = ('float', 'a.dtype', 'windows.dtype', 'dtype')      # array payload types are not index types
+    n = 0
+    for f in model.live_funcs():
+        if f.mod.modname != modname:
+            continue
+        indexy = 'indices' in f.name or any(isinstance(c, ast.Call) and (model.resolve(f.mod, c.func) or '') in ('numpy.repeat', 'numpy.tile', 'numpy.arange', 'numpy.add.at')
+                                            for c in body_walk(f.node))
+        if not indexy:
+            continue
+        for c in body_walk(f.node):
+            if not isinstance(c, ast.Call):
+                continue
+            dt = None
+            if isinstance(c.func, ast.Attribute) and c.func.attr == 'astype' and (c.args or c.keywords):
+                dt = c.args[0] if c.args else next((k.value for k in c.keywords if k.arg == 'dtype'), None)
+            elif (model.resolve(f.mod, c.func) or '') in ('numpy.arange', 'numpy.repeat', 'numpy.tile', 'numpy.array', 'numpy.asarray', 'numpy.indices', 'numpy.full'):
+                dt = next((k.value for k in c.keywords if k.arg == 'dtype'), None)
+            if dt is None:
+                continue
+            from .core import inline_expr
+            t = norm(inline_expr(f.node, dt))
+            if (t.endswith('.dtype') or 'float' in t) and 'int' not in t and 'scalar_type' not in t:
+                continue        # the payload type of an array (a.dtype, np.float32): not an index type
+            n += 1
+            R.ob(P + '.INDEX-WIDTH', f.qualname, norm(c)[:90], t in WIDE, 'integer (index) data cast to %s: a narrower or value-dependent integer type wraps around for large images / paddings' % t,
+                 '%s:%d' % (f.mod.relpath, c.lineno))
+    R.ob(P + '.INDEX-WIDTH', modname, 'integer casts in the index code: %d' % n, True, '', '')
+
+
+def check_layer_stateless(model, R, P):
+    """forward() of a layer / activation / loss reads its hyper-parameters and never re-binds them: the only attribute a forward pass may write is the documented
+    training state of batch normalisation"""
+    R.rule(P + '.LAYER-STATE', 'forward() of every nn layer assigns no attribute of self (hyper-parameters such as dim / kernel_size / p are fixed by the constructor); the only exception is '
+                               'BatchNorm\'s num_batches_tracked (running statistics are updated through .data by nn.functional.batch_norm)', floor=10)
+    allowed = {('synapgrad.nn.layers.BatchNorm.forward', 'self.num_batches_tracked')}
+    for f in model.live_funcs():
+        if f.cls is None or f.name not in ('forward', '__call__') or not f.mod.modname.startswith('synapgrad.nn') or f.mod.modname.startswith('synapgrad.nn.utils'):
+            continue
+        selfn = f.pos_params[0] if f.pos_params else 'self'
+        writes = []
+        for n in ast.walk(f.node):
+            tg = n.targets if isinstance(n, ast.Assign) else ([n.target] if isinstance(n, (ast.AugAssign, ast.AnnAssign)) else (n.targets if isinstance(n, ast.Delete) else []))
+            for t in tg:
+                for x in ([t] if not isinstance(t, (ast.Tuple, ast.List)) else t.elts):
+                    b = x
+                    while isinstance(b, (ast.Attribute, ast.Subscript)):
+                        b = b.value
+                    if isinstance(b, ast.Name) and b.id == selfn and not isinstance(x, ast.Name):
+                        root = x
+                        while isinstance(root, ast.Subscript):
+                            root = root.value
+                        if (f.qualname, norm(root)) not in allowed:
+                            writes.append(norm(n)[:70])
+            if isinstance(n, ast.Call) and norm(n.func) in ('setattr', 'object.__setattr__') and n.args and norm(n.args[0]) == selfn:
+                writes.append(norm(n)[:70])
+        R.ob(P + '.LAYER-STATE', f.qualname, 'attribute writes in the forward pass: %s' % (writes or 'none'), not writes,
+             'a forward pass that re-binds a hyper-parameter makes the layer depend on the inputs it has seen (e.g. a negative dim resolved against the rank of the first input)', f.loc)
+
+
 # ------------------------------------------------------------------------------------------------ PERM
 PERM_FUNCS = {'numpy.moveaxis': ('moveaxis', 3), 'numpy.swapaxes': ('swapaxes', 3)}
 
